@@ -64,48 +64,69 @@ theorem C03_element_tag_dropped_counterexample (ctx : Ctx) (rec : Rec) (fl : Boo
     (s : Bool) (e : SrcType) (t : Tag) :
     genLevel ctx rec fl n tag (.seqOf s e (some t)) = genLevel ctx rec fl n tag (.seqOf s e none) := rfl
 
-/-- automatic tagging in the model: exactly when the environment is Automatic and no member carries a tag -/
+/-- automatic tagging in the model (SEQUENCE / SET): exactly when the environment is Automatic and no member carries a
+    tag, a version group counting through its components -/
 theorem C03_automatic_iff (ctx : Ctx) (members : List SrcComp) :
-    automaticTags ctx members = true ↔ ctx.env = TaggingEnvironment.Automatic ∧ ∀ m ∈ members, m.tag = none := by
-  simp only [automaticTags, Bool.and_eq_true, beq_iff_eq, Bool.not_eq_true', List.any_eq_false]
+    automaticTags ctx members = true ↔
+      ctx.env = TaggingEnvironment.Automatic ∧ ∀ m ∈ members, m.tag = none ∧ groupTagged m = false := by
+  simp only [automaticTags, Bool.and_eq_true, beq_iff_eq, Bool.not_eq_true', List.any_eq_false, Bool.or_eq_true, not_or]
   constructor
   · rintro ⟨h1, h2⟩
     refine ⟨h1, fun m hm => ?_⟩
     have := h2 m hm
+    refine ⟨?_, by simpa using this.2⟩
     cases hmt : m.tag with
     | none => rfl
     | some x => rw [hmt] at this; simp at this
   · rintro ⟨h1, h2⟩
     refine ⟨h1, fun m hm => ?_⟩
-    rw [h2 m hm]; simp
+    rw [(h2 m hm).1, (h2 m hm).2]; simp
 
-/-- … and it agrees with the reference semantics (AUTOMATIC TAGS ∧ none of the type's own components
-    tagged) whenever no version group hides a tagged component (Dom; groups flatten in X.680's
-    ComponentTypeLists but are one untagged synthetic member in the IR). -/
-theorem C03_automatic_spec_partial (ctx : Ctx) (sctx : SCtx) (root : List SrcComp) (marker : Bool) (adds : List SrcAdd)
+/-- a lexed version group is tagged exactly when one of its components is -/
+theorem groupTagged_group (cs : List SrcComp) :
+    groupTagged (Lexer.groupMember cs) = cs.any (fun c => c.tag.isSome) := by
+  simp [groupTagged, Lexer.groupMember, SrcComp.name, SrcComp.ty]
+
+/-- **C03 (automatic tagging), FULL since fix `377113c`**: for every SEQUENCE / SET body — root, marker, additions,
+    version groups with any components — the generator's decision is the reference one (AUTOMATIC TAGS ∧ none of the
+    type's own components tagged, the components of `[[ ]]` groups included: X.680 25.3 speaks of the
+    ComponentTypeLists). `hnames`: no source component is called like the lexer's group wrapper — true of every
+    X.680 identifier (no underscore, `C16_lexer_names_in_domain`). -/
+theorem C03_automatic_spec (ctx : Ctx) (sctx : SCtx) (root : List SrcComp) (marker : Bool) (adds : List SrcAdd)
     (henv : ctx.env = headerEnv sctx.default)
-    (hg : ∀ a ∈ adds, ∀ v cs, a = SrcAdd.group v cs → ∀ c ∈ cs, c.tag = none) :
+    (hnames : ∀ c, c ∈ root ∨ SrcAdd.comp c ∈ adds → c.name.startsWith Lexer.extGroupPrefix = false) :
     automaticTags ctx (Lexer.assembleBody root marker adds).1 = automaticSpec sctx root adds := by
-  have hany : ((Lexer.assembleBody root marker adds).1.any fun c => c.tag.isSome) =
-      ((ownComponents root adds).any fun c => c.tag.isSome) := by
-    simp only [Lexer.assembleBody, Lexer.assemble, ownComponents, List.any_append, Lexer.lexAdds]
-    congr 1
-    induction adds with
+  have hplain : ∀ c, c.name.startsWith Lexer.extGroupPrefix = false → groupTagged c = false := by
+    intro c h; simp [groupTagged, h]
+  have hR : ∀ (l : List SrcComp), (∀ c ∈ l, c.name.startsWith Lexer.extGroupPrefix = false) →
+      (l.any fun c => c.tag.isSome || groupTagged c) = (l.any fun c => c.tag.isSome) := by
+    intro l hl
+    induction l with
+    | nil => rfl
+    | cons c t ih =>
+      simp only [List.any_cons]
+      rw [hplain c (hl c List.mem_cons_self), Bool.or_false, ih (fun x hx => hl x (List.mem_cons_of_mem _ hx))]
+  have hA : ∀ (l : List SrcAdd), (∀ c, SrcAdd.comp c ∈ l → c.name.startsWith Lexer.extGroupPrefix = false) →
+      ((l.map Lexer.lexAdd).any fun c => c.tag.isSome || groupTagged c) = ((l.flatMap addComps).any fun c => c.tag.isSome) := by
+    intro l hl
+    induction l with
     | nil => rfl
     | cons a t ih =>
       simp only [List.map_cons, List.any_cons, List.flatMap_cons, List.any_append]
-      rw [ih (fun x hx => hg x (List.mem_cons_of_mem _ hx))]
+      rw [ih (fun x hx => hl x (List.mem_cons_of_mem _ hx))]
       congr 1
       cases a with
-      | comp c => simp [Lexer.lexAdd, addComps]
+      | comp c =>
+        simp only [Lexer.lexAdd, addComps, List.any_cons, List.any_nil, Bool.or_false]
+        rw [hplain c (hl c List.mem_cons_self), Bool.or_false]
       | group v cs =>
-        have hcs := hg (.group v cs) List.mem_cons_self v cs rfl
         have h1 : (Lexer.lexAdd (.group v cs)).tag = none := rfl
-        simp only [h1, addComps]
-        have : (cs.any fun c => c.tag.isSome) = false := by
-          simp only [List.any_eq_false]
-          intro c hc; rw [hcs c hc]; simp
-        rw [this]; rfl
+        simp only [h1, addComps, Option.isSome_none, Bool.false_or]
+        exact groupTagged_group cs
+  have hany : ((Lexer.assembleBody root marker adds).1.any fun c => c.tag.isSome || groupTagged c) =
+      ((ownComponents root adds).any fun c => c.tag.isSome) := by
+    simp only [Lexer.assembleBody, Lexer.assemble, ownComponents, List.any_append, Lexer.lexAdds]
+    rw [hR root (fun c hc => hnames c (Or.inl hc)), hA adds (fun c hc => hnames c (Or.inr hc))]
   simp only [automaticTags, automaticSpec, hany, henv]
   have e1 : (TaggingEnvironment.Explicit == TaggingEnvironment.Automatic) = false := by decide
   have e2 : (TaggingEnvironment.Implicit == TaggingEnvironment.Automatic) = false := by decide
@@ -115,6 +136,18 @@ theorem C03_automatic_spec_partial (ctx : Ctx) (sctx : SCtx) (root : List SrcCom
   have d3 : (TagDefault.none == TagDefault.automatic) = false := by decide
   have d4 : (TagDefault.automatic == TagDefault.automatic) = true := by decide
   cases sctx.default <;> simp only [headerEnv, e1, e2, e3, d1, d2, d3, d4]
+
+/-- the decision as it was before the fix: `A ::= SEQUENCE { x BOOLEAN, ..., [[ a [7] BOOLEAN ]] }` under AUTOMATIC TAGS
+    was tagged automatically although one of its components carries a tag -/
+theorem C03_old_group_tag_counterexample :
+    let a : SrcComp := .mk "a" (some ⟨.context, 7, .none⟩) (.prim "BOOLEAN") .required
+    let x : SrcComp := .mk "x" none (.prim "BOOLEAN") .required
+    automaticTagsFlat ⟨.Automatic, false⟩ (Lexer.assembleBody [x] true [.group none [a]]).1 = true ∧
+    automaticSpec ⟨.automatic, false, []⟩ [x] [.group none [a]] = false := by
+  refine ⟨?_, ?_⟩ <;> rfl
+
+/-- non-vacuity of `hnames`: ASN.1 identifiers do not begin like the lexer's group wrapper -/
+example : ("a".startsWith Lexer.extGroupPrefix = false) ∧ ("x".startsWith Lexer.extGroupPrefix = false) := by decide
 
 /-- non-vacuity: the four defaults on `[5] T`, untagged CHOICE under IMPLICIT, explicit keyword under IMPLICIT -/
 example : (tagAt (headerEnv .explicit) true (some ⟨.context, 5, .none⟩)).map (·.explicit) = some true ∧
